@@ -937,7 +937,7 @@ def invoke(ctx, tgt, name, args):
             if tag.startswith('closure@') and (info['trait'] or '').split('::')[-1] in ('Fn', 'FnMut', 'FnOnce'):
                 t2 = ('closure_call',)
             else:
-                nm = '<%s as %s>::%s' % (tag, info['trait'], rest_raw) if info['trait'] else '<%s>::%s' % (tag, rest_raw)
+                nm = '<%s as %s>::%s' % (tag, info.get('trait_raw') or info['trait'], rest_raw) if info['trait'] else '<%s>::%s' % (tag, rest_raw)
                 t2 = _resolve(ctx.prog, nm)
                 if t2[0] == 'dyn':
                     t2 = ('none', nm)
